@@ -1,0 +1,10 @@
+//go:build !verif
+
+package pool
+
+// Stubs for the verif build tag hooks. Never called without the tag
+// (verifhook.On is a false constant).
+
+func verifGetBuf(size int) Buffer { return nil }
+
+func verifReleaseBuf(b Buffer) {}
